@@ -653,6 +653,26 @@ def run(tier):
 
 
 def replay(path):
+    """Re-evaluate the direct predicates on the document of a replay file."""
+    import random
+    from graphql import build_schema, parse
     d = json.loads(open(path).read())
-    print(json.dumps(d, indent=1)[:4000])
-    return 0
+    print(json.dumps({k: d[k] for k in d if k != "proof_breaks"}, indent=1)[:3000])
+    if "document" not in d:
+        return 0
+    sdl = d.get("schema", "")
+    fixed = not sdl or sdl.startswith("C12 fixed schema")
+    impl = Impl(build_schema(SCHEMA_SDL if fixed else sdl))
+    impl.sdl = None if fixed else sdl
+    ck = Check("C12", "replay")
+    try:
+        doc = parse(d["document"])
+    except Exception as e:  # noqa: BLE001
+        print("document does not parse:", e)
+        return 0
+    check_document(ck, impl, d["document"], doc, random.Random(d.get("seed", 0)))
+    for key, what, _ in ck.violations:
+        print("STILL FAILS:", what[:300])
+    if not ck.violations:
+        print("all direct predicates hold on this document now")
+    return 1 if ck.violations else 0
